@@ -176,6 +176,11 @@ def build_discrete(cfg, pool):
         return P(cfg["A"]).difference(P(cfg["B"]))
     if k == "diff_union":
         return R.DifferenceRegion(P(cfg["A"]), R.UnionRegion(P(cfg["B"]), P(cfg["C"])))
+    if k == "gen_inter_poly":
+        regs = [P(cfg["A"]), build(cfg["spec"])]
+        return R.IntersectionRegion(*(regs if cfg.get("order", 0) == 0 else regs[::-1]))
+    if k == "gen_diff_poly":
+        return R.DifferenceRegion(P(cfg["A"]), build(cfg["spec"]))
     raise ValueError(k)
 
 
@@ -188,6 +193,12 @@ def run_discrete(cfg, pool):
         if cfg["kind"] in ("ps_inter_region", "region_inter_ps"):
             o = build(cfg["spec"])
             out["in_region"] = [bool(o.containsPoint(Vector(*pool[i]))) for i in cfg["A"]]
+        if cfg["kind"] in ("gen_inter_poly", "gen_diff_poly"):
+            # independent 3-D membership: xy inside the polygon (shapely) AND the height of the planar region
+            o = build(cfg["spec"])
+            zz = float(o.z)
+            out["in_region"] = [bool(o.polygons.contains(shapely.geometry.Point(pool[i][0], pool[i][1]))) and pool[i][2] == zz for i in cfg["A"]]
+            out["over_footprint"] = [bool(o.polygons.contains(shapely.geometry.Point(pool[i][0], pool[i][1]))) for i in cfg["A"]]
         if cfg["kind"] == "grid":
             g = cfg["spec"]
             out["grid_points"] = [[g["Ax"] * ix + g["Bx"], g["Ay"] * iy + g["By"], 0.0]
@@ -269,6 +280,15 @@ def build_cont(cfg):
     if k == "prim":
         r = build(cfg["A"])
         return r, [r], None
+    if k == "hist":
+        # the SAME footprint object is combined with several volumes in turn (its caches carry over);
+        # the last result is the region sampled; membership is judged on freshly built operands
+        F = build(cfg["A"])
+        res = None
+        for spec, op in zip(cfg["vols"], cfg["ops"]):
+            V = build(spec)
+            res = getattr(V, op)(F)
+        return res, [build(cfg["vols"][-1]), build(cfg["A"])], cfg["ops"][-1]
     A, B = build(cfg["A"]), build(cfg["B"])
     if k == "gen_union":
         return R.UnionRegion(A, B), [A, B], "union"
@@ -322,6 +342,19 @@ def run_continuous(cfg):
         # membership of every sample in the operands (own containsPoint + explicit height for planar operands)
         bad = []
         for p in pts:
+            if cfg["kind"] == "hist":
+                # independent geometry (box frame + shapely), 1e-3 slack for the binary32 mesh kernel
+                from impl_c16 import local_coords
+                bx = cfg["vols"][-1]
+                u = local_coords(bx, p)
+                in_box = bool((numpy.abs(u) <= numpy.array(bx["dims"]) / 2 + 1e-3).all())
+                pt_ = shapely.geometry.Point(p[0], p[1])
+                poly_ = operands[1].polygons
+                inside, near = bool(poly_.contains(pt_)), poly_.boundary.distance(pt_) <= 1e-3
+                ok = in_box and (near or (inside if op == "intersect" else not inside))
+                if not ok and len(bad) < 3:
+                    bad.append(dict(point=list(p), operand_membership=[in_box, inside]))
+                continue
             v = Vector(*p)
             mem = []
             for o_ in operands:
@@ -348,10 +381,20 @@ def run_continuous(cfg):
                 cells = polyline_cells(A, pts)
             elif A["kind"] == "box":
                 cells = box_cells(A, pts)
+        elif cfg["kind"] == "hist":
+            cells = prism_cells(cfg, operands[1].polygons, op, pts)
+            out["expected_size"] = cells.pop("volume")
         elif all(p is not None for p in polys) and operands[0].z == operands[1].z:
             target = polys[0] & polys[1] if op == "intersect" else (polys[0] | polys[1] if op == "union" else polys[0] - polys[1])
             if target.area > 1e-6:
                 cells = planar_cells(target, pts, cfg.get("k", 6))
+        elif all(p is not None for p in polys):
+            # planar operands at different heights: the composed set lives on one layer per height
+            za, zb = float(operands[0].z), float(operands[1].z)
+            layers = [] if op == "intersect" else ([(za, polys[0]), (zb, polys[1])] if op == "union" else [(za, polys[0])])
+            if layers:
+                cells = layer_cells(layers, pts, cfg.get("k", 6))
+                out["overlap_area"] = float((polys[0] & polys[1]).area)
         out["cells"] = cells
         out["size"] = float(reg.size) if getattr(reg, "size", None) is not None else None
     except RecursionError:
@@ -382,6 +425,67 @@ def planar_cells(poly, pts, k):
             continue
         cnt[i * k + j] += 1
     return dict(expected=exp, counts=cnt, outside=outside)
+
+
+def layer_cells(layers, pts, k):
+    """cells of a region made of planar pieces at different heights; expected shares by area over ALL layers"""
+    total = sum(poly.area for _, poly in layers)
+    exp, cnt, index = [], [], []
+    for z, poly in layers:
+        minx, miny, maxx, maxy = poly.bounds
+        dx, dy = (maxx - minx) / k, (maxy - miny) / k
+        index.append((z, minx, miny, maxx, maxy, dx, dy, len(exp)))
+        for i in range(k):
+            for j in range(k):
+                cell = shapely.geometry.box(minx + i * dx, miny + j * dy, minx + (i + 1) * dx, miny + (j + 1) * dy)
+                exp.append(poly.intersection(cell).area / total)
+                cnt.append(0)
+    outside = 0
+    for p in pts:
+        for z, minx, miny, maxx, maxy, dx, dy, base in index:
+            if abs(p[2] - z) < 1e-9 and minx - 1e-9 <= p[0] <= maxx + 1e-9 and miny - 1e-9 <= p[1] <= maxy + 1e-9:
+                i = min(k - 1, max(0, int((p[0] - minx) / dx)))
+                j = min(k - 1, max(0, int((p[1] - miny) / dy)))
+                cnt[base + i * k + j] += 1
+                break
+        else:
+            outside += 1
+    return dict(expected=exp, counts=cnt, outside=outside)
+
+
+def prism_cells(cfg, poly, op, pts):
+    """box (yaw only) combined with a footprint: the composed set is a prism, so its measure is
+    (area of the xy section) x (height): z slices x xy cells, computed with shapely only"""
+    box = cfg["vols"][-1]
+    from impl_c16 import rotmat
+    M = rotmat(box)
+    hx, hy, hz = [t / 2 for t in box["dims"]]
+    corners = [(numpy.array(box["pos"]) + M @ numpy.array([sx * hx, sy * hy, 0.0]))[:2] for sx, sy in ((-1, -1), (1, -1), (1, 1), (-1, 1))]
+    rect = shapely.geometry.Polygon([tuple(map(float, c_)) for c_ in corners])
+    target = rect & poly if op == "intersect" else rect - poly
+    zlo, zhi = box["pos"][2] - hz, box["pos"][2] + hz
+    nz, k = 6, 3
+    if target.area < 1e-6:
+        return dict(expected=[], counts=[], outside=0, volume=0.0)
+    minx, miny, maxx, maxy = target.bounds
+    dx, dy = (maxx - minx) / k, (maxy - miny) / k
+    exp, cnt = [], []
+    for s_ in range(nz):
+        for i in range(k):
+            for j in range(k):
+                cell = shapely.geometry.box(minx + i * dx, miny + j * dy, minx + (i + 1) * dx, miny + (j + 1) * dy)
+                exp.append(target.intersection(cell).area / target.area / nz)
+                cnt.append(0)
+    outside = 0
+    for p in pts:
+        if not (minx - 1e-6 <= p[0] <= maxx + 1e-6 and miny - 1e-6 <= p[1] <= maxy + 1e-6 and zlo - 1e-6 <= p[2] <= zhi + 1e-6):
+            outside += 1
+            continue
+        s_ = min(nz - 1, max(0, int((p[2] - zlo) / (zhi - zlo) * nz)))
+        i = min(k - 1, max(0, int((p[0] - minx) / dx)))
+        j = min(k - 1, max(0, int((p[1] - miny) / dy)))
+        cnt[(s_ * k + i) * k + j] += 1
+    return dict(expected=exp, counts=cnt, outside=outside, volume=float(target.area * (zhi - zlo)))
 
 
 def polyline_cells(spec, pts):
